@@ -47,9 +47,9 @@ CHECKS = {
         'title': 'diagnostics never serve stale values',
         'batches': [
             {'machine': 'diag', 'profile': 'default',
-             'runs': {'quick': 32000, 'thorough': 1200000},
+             'runs': {'quick': 24000, 'thorough': 1200000},
              'block': {'quick': 500, 'thorough': 1500},
-             'wall': {'quick': 80, 'thorough': 1700}},
+             'wall': {'quick': 95, 'thorough': 1700}},
         ]},
     'C10': {
         'title': 'search API has no hidden state',
@@ -327,9 +327,16 @@ def run_check(prop, tier, seed):
     deadline = t0 + b['wall'][tier] * max(scale, 1.0)
     bid = '%s:%s' % (b['machine'], b['profile'])
     q = []
-    for start in range(0, total, block):
+    for bi, start in enumerate(range(0, total, block)):
       count = min(block, total - start)
       hs = core.hash_seed_for(seed, bid, block_no)
+      # the build knob of optimize_for() (python -O when hs % 5 == 0) is
+      # spread evenly, starting with the second block of every batch, so that
+      # a run cut short by the wall cap has still seen both builds
+      if bi % 5 == 1:
+        hs -= hs % 5
+      elif hs % 5 == 0:
+        hs -= 1
       block_no += 1
       q.append((deadline, (lambda b=b, bid=bid, start=start, count=count,
                            hs=hs: Job(bid, b['machine'], b['profile'],
